@@ -1,4 +1,5 @@
 -- Root of the `Tcell` library: models, specifications, lemmas and property theorems.
+import Tcell.AuditLib
 import Tcell.Model.Cell
 import Tcell.Model.CellOps
 import Tcell.Props.C08
